@@ -281,6 +281,8 @@ def complex_case(draw):
                 naming=draw(st.sampled_from(["default", "collide", "collide"])),
                 nwat=draw(st.integers(0, 3)), other=draw(st.booleans()), ff=draw(st.sampled_from(["AMBER", "PARSE", "CHARMM", "SWANSON"])),
                 lig_alt=draw(st.sampled_from(["none", "none", "some", "all"])),
+                copies=draw(st.sampled_from([1, 1, 2])),  # the same ligand bound twice (e.g. once per protomer)
+                tit=draw(st.sampled_from([None, None, 3.0, 7.0, 11.0])),  # titration route (hydrogens stripped and rebuilt)
                 lig_first=draw(st.booleans()), opts=draw(st.sampled_from([[], ["--noopt"], ["--nodebump"], ["--whitespace"]])))  # fmt: skip
 
 
@@ -320,6 +322,10 @@ def check_complex(case):
         else:
             lig_recs.append(rec)
     lig_recs += grouped
+    copies = case.get("copies", 1)
+    if copies == 2:
+        lig_recs += [dict(r_, chain="M", seq=501, xyz=r_["xyz"] + np.array([0.0, 18.0, 0.0]), group=("lig2", r_["group"][1]))
+                     for r_ in lig_recs]  # fmt: skip
     wat_recs = [dict(name="O", resn="HOH", chain="W", seq=600 + k, xyz=np.array([40.0 + 4 * k, 10.0, 10.0]), rec="HETATM",
                      group=("water", "W", 600 + k)) for k in range(case["nwat"])]  # fmt: skip
     other = []
@@ -330,11 +336,18 @@ def check_complex(case):
         for rec in blk:
             s.add(**rec)
     opts = [f"--ff={case['ff']}", "--ligand=@DIR@/lig.mol2", "--keep-chain", *case["opts"]]
+    if case.get("tit") is not None:
+        from . import c06
+
+        c06.install_fake_propka()
+        c06.PKA.clear()
+        c06.TERM_ROWS.clear()
+        opts += ["--titration-state-method=propka", f"--with-ph={case['tit']}"]
     r = pipeline.run(s.text(), opts, extra_files={"lig.mol2": mol_text})
     collide = case["naming"] == "collide"
     res.nontrivial = collide or abs(sum(a["formal"] for a in m.atoms)) > 0
     res.label(f"ff={case['ff']}", f"naming={case['naming']}", f"waters={case['nwat']}", "other-het" if case["other"] else "no-other",
-              f"ligand-altloc={lig_alt}")  # fmt: skip
+              f"ligand-altloc={lig_alt}", f"copies={copies}", "titration" if case.get("tit") is not None else "no-titration")  # fmt: skip
     if not r.ok:
         res.label("run-failed")
         res.nontrivial = False
@@ -346,8 +359,9 @@ def check_complex(case):
         seen[ln["name"]] = seen.get(ln["name"], 0) + 1
     for i in range(n):
         cnt = seen.get(names[i], 0)
-        if cnt != 1:
-            res.bad("C16:complex:ligand-atom-count", f"ligand atom {names[i]} written {cnt} times")
+        if cnt != copies:
+            res.bad("C16:complex:ligand-atom-count", f"ligand atom {names[i]} written {cnt} times for {copies} bound "
+                    f"cop{'ies' if copies > 1 else 'y'} of the ligand (titration route: {case.get('tit') is not None})")  # fmt: skip
             break
     for ln in lig_lines:
         a = ref.atoms.get(ln["name"])
